@@ -408,6 +408,62 @@ async def type_codes(chk):
     await a.finish()
 
 
+async def reused_columns(chk, rng, n):
+    """an application that declares its columns once (the same ResultColumn objects for every query) and is asked by clients
+    with different results character sets, or by one client that changes it: every client decodes the declared names and
+    the returned cells, whatever was sent to whom before"""
+    from lib import Peer, RecSession, mkserver, decode_resultset, decode_text_row, decode_binary_row, com_stmt_execute
+    from mysql_mimic import ResultColumn, ColumnType
+    names = ["größe", "café", "Straße", "plain", "größe"]        # encodable in every results set used below
+    for i in range(n):
+        cols = [ResultColumn(nm, ColumnType.VARCHAR) for nm in rng.sample(names, rng.randrange(1, 5))]
+        rows = [tuple("v%d_%d-é" % (r, c) for c in range(len(cols))) for r in range(rng.randrange(0, 4))]
+        sessions = [RecSession(behaviour=lambda se, e, sql, at: (list(rows), cols)) for _ in range(3)]       # shared column objects
+        srv = mkserver(sessions)
+        charsets = [rng.choice(["utf8mb4", "latin1", "cp1250", "utf8mb4", "latin2"]) for _ in range(rng.randrange(2, 5))]
+        peers = []
+        for k in range(rng.choice([1, 2, 3])):
+            a = Peer(srv)
+            await a.login(caps=rng.choice([BASE, BASE | C.CLIENT_DEPRECATE_EOF]))
+            peers.append(a)
+        desc = dict(shared_columns=[c.name for c in cols], rows=len(rows), charset_sequence=charsets, connections=len(peers), seed=chk.seed, case=i)
+        chk.case(("reused-cols", tuple(c.name for c in cols), tuple(charsets), len(peers)))
+        chk.count("reused-columns")
+        pycodec = {"utf8mb4": "utf-8", "latin1": "cp1252", "cp1250": "cp1250", "latin2": "iso8859_2"}
+        prepared = {}
+        for step, cs in enumerate(charsets):
+            a = peers[step % len(peers)]
+            o = await a.cmd(b"\x03SET NAMES " + cs.encode())
+            if not o or o[0][1][:1] != b"\x00":
+                chk.fail("SET NAMES refused", dict(desc, charset=cs))
+                break
+            binary = rng.random() < 0.5
+            if binary:
+                po = await a.cmd(b"\x16select a from t")
+                sid = struct.unpack_from("<I", po[0][1], 1)[0]
+                out = await a.cmd(com_stmt_execute(sid, [], caps=int(BASE)), n=80)
+            else:
+                out = await a.cmd(b"\x03select a from t", n=80)
+            try:
+                rs = decode_resultset([p for _, p in out], a.caps)
+                got_names = [cd["name"].decode(pycodec[cs]) for cd in rs["cols"]]
+                if got_names != [c.name for c in cols]:
+                    chk.fail("a client decodes other column names than the application declared", dict(desc, step=step, charset=cs, binary=binary),
+                             dict(decoded=got_names, declared=[c.name for c in cols]))
+                    break
+                for r, want in zip(rs["rows"], rows):
+                    cells = decode_binary_row(r, [253] * len(cols)) if binary else decode_text_row(r, len(cols))
+                    cells = [x.decode("utf-8") if isinstance(x, (bytes, bytearray)) else x for x in cells]
+                    if tuple(cells) != want:
+                        chk.fail("a client decodes other cells than the application returned", dict(desc, step=step, charset=cs, binary=binary), dict(decoded=cells, returned=want))
+                        break
+            except Exception as e:  # noqa
+                chk.fail("result set not decodable in the client's results character set", dict(desc, step=step, charset=cs, binary=binary), repr(e)[:200])
+                break
+        for a in peers:
+            await a.finish()
+
+
 def main():
     chk = Check("C05", sys.argv[1:])
     chk.rule = ("typed random rows (0..20 columns incl. 6/7/8/14/15/16, NULL patterns, per-type boundaries, strings of "
@@ -428,6 +484,7 @@ def main():
         impl.extend(i)
         await end_to_end(chk, rng, 150 if not T_ else 2500)
         await type_codes(chk)
+        await reused_columns(chk, rng, 12 if not T_ else 400)
 
     asyncio.run(go())
     model = drive(lines)
